@@ -596,6 +596,14 @@ func (e *Engine) preemptHereFn(fn *ssa.Function) bool {
 			ok = true
 		}
 	}
+	if ok && len(e.preemptIn) > 0 {
+		ok = false
+		for _, pat := range e.preemptIn {
+			if strings.Contains(fn.String(), pat) {
+				ok = true
+			}
+		}
+	}
 	e.preemptOK[fn] = ok
 	return ok
 }
